@@ -25,13 +25,15 @@ def load_known():
         d = json.load(open(KNOWN_FILE))
         global KNOWN_ORPAT
         KNOWN_ORPAT = set(d.get("or_pattern_fns", []))
-        global PLAIN_COLLECTS
+        global PLAIN_COLLECTS, PLAIN_EXTENDS
         PLAIN_COLLECTS = set(d.get("plain_collects", []))
+        PLAIN_EXTENDS = set(d.get("plain_extends", []))
         return set(d["functions"]) - set(d.get("dormant", [])), set(tuple(x) for x in d["closure_uses"])
     except Exception:
         return None, None
 
 
+PLAIN_EXTENDS = set()  # functions of the reference tree that call Extend::extend (the rules read those as written)
 PLAIN_COLLECTS = set()  # functions of the reference tree that call collect() directly on a closure-free iterator
 KNOWN_ORPAT = set()  # functions of the reference tree that bind variables in or-patterns: their merged shape is what the rules were written against
 
@@ -135,14 +137,31 @@ def splice(cb, gb, arg_rvalues, dest, target, loc):
 # ------------------------------------------------------------------ adaptor desugaring
 
 ITER = "std::iter::Iterator::"
-STAGES = ("map", "filter", "filter_map", "inspect")
-SINKS = ("collect", "any", "all", "for_each")
+STAGES = ("map", "filter", "filter_map", "inspect", "flat_map", "flatten")
+SINKS = ("collect", "any", "all", "for_each", "extend", "find", "find_map")
 
 COLLECTIONS = (
     ("std::vec::Vec<", "std::vec::Vec::<T>::new", "std::vec::Vec::<T, A>::push"),
     ("std::collections::BTreeSet<", "std::collections::BTreeSet::<T>::new", "std::collections::BTreeSet::<T, A>::insert"),
     ("std::collections::HashSet<", "std::collections::HashSet::<T>::new", "std::collections::HashSet::<T, S, A>::insert"),
 )
+MAP_COLLECTIONS = (
+    ("std::collections::HashMap<", "std::collections::HashMap::<K, V>::new", "std::collections::HashMap::<K, V, S, A>::insert"),
+    ("std::collections::BTreeMap<", "std::collections::BTreeMap::<K, V>::new", "std::collections::BTreeMap::<K, V, A>::insert"),
+)
+
+
+def collection_of(ty):
+    """(type, constructor, adder, arity of the adder's payload) for a collection type that elements can be added to one by one"""
+    for (pre, new_, ins) in COLLECTIONS:
+        if ty.startswith(pre):
+            return (ty, new_, ins, 1)
+    for (pre, new_, ins) in MAP_COLLECTIONS:
+        if ty.startswith(pre):
+            return (ty, new_, ins, 2)
+    if ty == "std::string::String":
+        return (ty, "std::string::String::new", "std::string::String::push_str", 1)
+    return None
 
 
 def callee_of(t):
@@ -187,12 +206,72 @@ def env_rvalue(gb, closure_operand):
     return use({"k": "copy", "p": pl})
 
 
+def literal_array_source(b, o):
+    """operands of the array literal an iterator operand is created from ([a, b].into_iter() / .iter()), or None"""
+    for _ in range(6):
+        if o["k"] not in ("move", "copy") or o["p"]["pr"]:
+            return None
+        d = single_def(b, o["p"]["l"])
+        if d is None:
+            return None
+        if d[0] == "rv":
+            rv = d[3]
+            if rv["k"] == "agg" and rv.get("ak") == "array":
+                return rv["ops"]
+            if rv["k"] == "use" and rv["o"]["k"] in ("move", "copy"):
+                o = rv["o"]
+                continue
+            if rv["k"] == "ref" and not rv["p"]["pr"]:
+                o = {"k": "copy", "p": rv["p"]}
+                continue
+            return None
+        fn = callee_of(d[2])
+        if fn is not None and fn["path"] in ("std::iter::IntoIterator::into_iter", "core::slice::<impl [T]>::iter") and d[2]["args"]:
+            o = d[2]["args"][0]
+            continue
+        return None
+    return None
+
+
+def stage_fn(b, o, bodies):
+    """what a stage / sink argument denotes: ('closure', body, operand) | ('fn', fn operand, callee body or None) | None"""
+    g = closure_of_operand(b, o, bodies)
+    if g is not None:
+        return ("closure", g, o)
+    r = resolve_fn_value(b, o) if o["k"] in ("move", "copy", "const") else None
+    if r is not None and "fn" in r:
+        fnrec = r["fn"]
+        gb = bodies.get(fnrec.get("resolved") or "") or bodies.get(fnrec["path"])
+        return ("fn", r, gb)
+    return None
+
+
+def fn_ret_ty(sf):
+    if sf[0] == "closure":
+        return sf[1]["locals"][0]["ty"]
+    if sf[2] is not None:
+        return sf[2]["locals"][0]["ty"]
+    m = sf[1].get("ty", "")
+    return m.split("->")[-1].split("{")[0].strip() if "->" in m else "?"
+
+
+def fn_param_ty(sf, k):
+    """type of the k-th declared parameter (0-based, not counting a closure's environment)"""
+    if sf[0] == "closure":
+        ls = sf[1]["locals"]
+        return ls[2 + k]["ty"] if len(ls) > 2 + k else "?"
+    if sf[2] is not None:
+        ls = sf[2]["locals"]
+        return ls[1 + k]["ty"] if len(ls) > 1 + k else "?"
+    return "?"
+
+
 def chain_of(b, operand, bodies):
-    """walk back from the receiver of a sink through map/filter/.. calls: ([(stage, closure operand, closure body, call block)], source operand, source iterator type)"""
+    """walk back from the receiver of a sink through map / filter / .. calls: ([(stage, function, call block, fn record)], source operand)"""
     stages = []
     o = operand
     seen = 0
-    while seen < 8:
+    while seen < 10:
         seen += 1
         if o["k"] not in ("move", "copy") or o["p"]["pr"]:
             break
@@ -206,12 +285,21 @@ def chain_of(b, operand, bodies):
                 continue
             break
         fn = callee_of(d[2])
-        if fn is None or not fn["path"].startswith(ITER) or fn["path"][len(ITER):] not in STAGES or len(d[2]["args"]) != 2:
+        if fn is None or not fn["path"].startswith(ITER) or fn["path"][len(ITER):] not in STAGES:
             break
-        g = closure_of_operand(b, d[2]["args"][1], bodies)
-        if g is None:
+        name = fn["path"][len(ITER):]
+        if name == "flatten":
+            if len(d[2]["args"]) != 1:
+                break
+            stages.append((name, None, d[1], fn))
+            o = d[2]["args"][0]
+            continue
+        if len(d[2]["args"]) != 2:
+            break
+        sf = stage_fn(b, d[2]["args"][1], bodies)
+        if sf is None:
             return None
-        stages.append((fn["path"][len(ITER):], d[2]["args"][1], g, d[1], fn))
+        stages.append((name, sf, d[1], fn))
         o = d[2]["args"][0]
     stages.reverse()
     return stages, o
@@ -222,158 +310,294 @@ def desugar_body(b, bodies, known_uses, log):
     used = set()
     changed = True
     rounds = 0
-    while changed and rounds < 20:
+    while changed and rounds < 30:
         changed = False
         rounds += 1
         for bi, blk in enumerate(b["blocks"]):
             t = blk["term"]
-            if t["k"] != "call" or blk.get("cleanup") or t.get("t") is None:
+            if t is None or t["k"] != "call" or blk.get("cleanup") or t.get("t") is None:
                 continue
             fn = callee_of(t)
-            if fn is None or not fn["path"].startswith(ITER):
+            if fn is None:
                 continue
-            sink = fn["path"][len(ITER):]
+            if fn["path"].startswith(ITER):
+                sink = fn["path"][len(ITER):]
+            elif fn["path"] == "std::iter::Extend::extend":
+                sink = "extend"
+            else:
+                continue
             if sink not in SINKS or not t["args"]:
                 continue
             loc = blk["tloc"]
-            recv = t["args"][0]
-            by_ref = sink in ("any", "all")  # take &mut self
+            recv = t["args"][1] if sink == "extend" else t["args"][0]
+            by_ref = sink in ("any", "all", "find", "find_map")  # take &mut self
             src = recv
             if by_ref:
-                # &mut <iterator local>
                 d = single_def(b, recv["p"]["l"]) if recv["k"] in ("move", "copy") and not recv["p"]["pr"] else None
                 if not (d and d[0] == "rv" and d[3]["k"] == "ref" and not d[3]["p"]["pr"]):
                     continue
                 src = {"k": "move", "p": copy.deepcopy(d[3]["p"])}
+            if src["k"] not in ("move", "copy"):
+                continue
             ch = chain_of(b, src, bodies)
             if ch is None:
                 continue
             stages, source = ch
-            sink_closure = None
-            if sink in ("any", "all", "for_each"):
+            sink_f = None
+            if sink in ("any", "all", "for_each", "find", "find_map"):
                 if len(t["args"]) != 2:
                     continue
-                sink_closure = closure_of_operand(b, t["args"][1], bodies)
-                if sink_closure is None:
+                sink_f = stage_fn(b, t["args"][1], bodies)
+                if sink_f is None:
                     continue
-            if sink == "collect" and not stages and b["path"] in PLAIN_COLLECTS:
-                continue
-            key_uses = [(b["path"], s[0]) for s in stages] + ([(b["path"], sink)] if sink_closure is not None else [])
+            key_uses = [(b["path"], s_[0]) for s_ in stages] + ([(b["path"], sink)] if sink_f is not None else [])
             if known_uses is not None and any(k in known_uses for k in key_uses):
                 continue
+            if sink == "collect" and not stages and b["path"] in PLAIN_COLLECTS:
+                continue
+            if sink == "extend" and not stages and b["path"] in PLAIN_EXTENDS:
+                continue
+            # the collection that receives the elements
             coll = None
+            acc_ref = None
             if sink == "collect":
                 dty = t["dest"].get("ty") or b["locals"][t["dest"]["l"]]["ty"]
-                for (pre, new, ins) in COLLECTIONS:
-                    if dty.startswith(pre):
-                        coll = (dty, new, ins)
+                coll = collection_of(dty)
                 if coll is None:
+                    continue
+            elif sink == "extend":
+                acc_ref = t["args"][0]
+                aty = (acc_ref.get("p") or {}).get("ty") or ""
+                aty = aty[len("&mut "):] if aty.startswith("&mut ") else aty
+                coll = collection_of(aty)
+                sty = (source.get("p") or {}).get("ty") or (b["locals"][source["p"]["l"]]["ty"] if source["k"] in ("move", "copy") and not source["p"]["pr"] else "")
+                if coll is None or acc_ref["k"] not in ("move", "copy"):
+                    continue
+                if not stages and coll[0].startswith("std::vec::Vec<") and sty.startswith("std::vec::Vec<"):
+                    # v.extend(w) with w a Vec: the same as v.append(&mut w)
+                    wl = new_local(b, sty)
+                    wr = new_local(b, "&mut " + sty)
+                    blk["stmts"].append(assign(P(wl, ty=sty), use(copy.deepcopy(source)), loc))
+                    blk["stmts"].append(assign(P(wr), {"k": "ref", "mut": True, "fake": False, "p": P(wl, ty=sty)}, loc))
+                    blk["term"] = call(fn_operand("std::vec::Vec::<T, A>::append", []), [copy.deepcopy(acc_ref), mv(wr)], copy.deepcopy(t["dest"]), t["t"], loc)
+                    log.append("%s: extend(vec) written as append" % b["path"])
+                    changed = True
+                    break
+                if not stages and not (sty.startswith(("std::collections::", "std::vec::", "std::iter::", "std::slice::", "core::slice::", "std::option::")) or "Iter" in sty):
                     continue
             # source iterator type
             if stages:
-                it_ty = stages[0][4]["gargs"][0] if stages[0][4].get("gargs") else ""
+                it_ty = stages[0][3]["gargs"][0] if stages[0][3].get("gargs") else ""
+            elif sink == "extend":
+                it_ty = (source.get("p") or {}).get("ty") or ""
+                if it_ty.startswith("std::vec::Vec<"):
+                    it_ty = "std::vec::IntoIter<" + it_ty[len("std::vec::Vec<"):]
             else:
                 it_ty = fn["gargs"][0] if fn.get("gargs") else ""
-            if source["k"] not in ("move", "copy"):
-                continue
-            # ---- build
+            # ---- build the loop
             cont = t["t"]
             dest = t["dest"]
-            stmts0 = blk["stmts"]
             it_l = new_local(b, it_ty, "iter")
-            stmts0.append(assign(P(it_l, ty=it_ty), use(copy.deepcopy(source)), loc))
+            blk["stmts"].append(assign(P(it_l, ty=it_ty), use(copy.deepcopy(source)), loc))
             acc_l = None
-            if coll:
+            if sink == "collect":
                 acc_l = new_local(b, coll[0])
-            opt_l = new_local(b, "std::option::Option<?>")
-            ref_l = new_local(b, "&mut " + it_ty)
-            d_l = new_local(b, "isize")
-            head = new_block(b, [], None, loc)  # placeholder, filled below
-            sw = new_block(b, [], None, loc)
-            unreach = new_block(b, [], {"k": "unreachable"}, loc)
-            some = new_block(b, [], None, loc)
-            none = new_block(b, [], None, loc)
-            b["blocks"][head]["stmts"] = [assign(P(ref_l), {"k": "ref", "mut": True, "fake": False, "p": P(it_l, ty=it_ty)}, loc)]
-            b["blocks"][head]["term"] = call(fn_operand(ITER + "next", [it_ty], trait="std::iter::Iterator", self_ty=it_ty), [mv(ref_l)], P(opt_l), sw, loc)
-            b["blocks"][sw]["stmts"] = [assign(P(d_l), {"k": "discr", "p": P(opt_l, ty="std::option::Option<?>")}, loc)]
-            b["blocks"][sw]["term"] = {"k": "switch", "d": mv(d_l), "dty": "isize", "ts": [[0, none], [1, some]], "else": unreach}
-            # entry: create the accumulator, then the loop
-            if coll:
-                blk["term"] = call(fn_operand(coll[1], []), [], P(acc_l, ty=coll[0]), head, loc)
-            else:
-                blk["term"] = goto(head)
-            # element
-            cur_bb = some
-            first_param_ty = (stages[0][2] if stages else sink_closure)["locals"][2]["ty"] if (stages or sink_closure) else "?"
-            ety = first_param_ty[1:].lstrip() if (stages and stages[0][0] in ("filter", "inspect")) and first_param_ty.startswith("&") else first_param_ty
-            e_l = new_local(b, ety)
-            b["blocks"][cur_bb]["stmts"].append(assign(P(e_l, ty=ety), use({"k": "move", "p": P(opt_l, [{"dc": "Some"}, {"f": 0, "n": "0"}], ety)}), loc))
 
-            def run_closure(cur_bb, g, cl_op, arg_rv, res_ty):
-                """splice closure g at the end of cur_bb with one argument; returns (result local, continuation block)"""
+            def open_loop(it_local, ity, exhausted_to):
+                """head / switch / some blocks of `loop { match next(&mut it) { None => goto exhausted_to, Some(e) => .. } }`; returns (head, some, option local)"""
+                opt_l = new_local(b, "std::option::Option<?>")
+                ref_l = new_local(b, "&mut " + ity)
+                d_l = new_local(b, "isize")
+                head = new_block(b, [], None, loc)
+                sw = new_block(b, [], None, loc)
+                unreach = new_block(b, [], {"k": "unreachable"}, loc)
+                some = new_block(b, [], None, loc)
+                b["blocks"][head]["stmts"] = [assign(P(ref_l), {"k": "ref", "mut": True, "fake": False, "p": P(it_local, ty=ity)}, loc)]
+                b["blocks"][head]["term"] = call(fn_operand(ITER + "next", [ity], trait="std::iter::Iterator", self_ty=ity), [mv(ref_l)], P(opt_l), sw, loc)
+                b["blocks"][sw]["stmts"] = [assign(P(d_l), {"k": "discr", "p": P(opt_l, ty="std::option::Option<?>")}, loc)]
+                b["blocks"][sw]["term"] = {"k": "switch", "d": mv(d_l), "dty": "isize", "ts": [[0, exhausted_to], [1, some]], "else": unreach}
+                return head, some, opt_l
+
+            none = new_block(b, [], None, loc)
+            firstf = stages[0][1] if stages and stages[0][1] is not None else sink_f
+            first_param_ty = fn_param_ty(firstf, 0) if firstf is not None else "?"
+            by_ref_first = (stages and stages[0][0] in ("filter", "inspect")) or (not stages and sink == "find")
+            ety0 = first_param_ty[1:].lstrip() if by_ref_first and first_param_ty.startswith("&") else first_param_ty
+            # a literal array as the source (`[a, b].into_iter().any(f)`): one copy of the element pipeline per element instead of a loop
+            literal = literal_array_source(b, source)
+            if literal is not None and len(literal) > 6:
+                literal = None
+            starts = []
+            if literal is None:
+                head, some, opt_l = open_loop(it_l, it_ty, none)
+                e0 = new_local(b, ety0)
+                b["blocks"][some]["stmts"].append(assign(P(e0, ty=ety0), use({"k": "move", "p": P(opt_l, [{"dc": "Some"}, {"f": 0, "n": "0"}], ety0)}), loc))
+                starts.append((some, e0, head))
+                first_bb = head
+            else:
+                bbs = [new_block(b, [], None, loc) for _ in literal]
+                for k_, op_ in enumerate(literal):
+                    e0 = new_local(b, ety0)
+                    b["blocks"][bbs[k_]]["stmts"].append(assign(P(e0, ty=ety0), use(copy.deepcopy(op_)), loc))
+                    starts.append((bbs[k_], e0, bbs[k_ + 1] if k_ + 1 < len(bbs) else none))
+                first_bb = bbs[0] if bbs else none
+            if sink == "collect":
+                blk["term"] = call(fn_operand(coll[1], []), [], P(acc_l, ty=coll[0]), first_bb, loc)
+            else:
+                blk["term"] = goto(first_bb)
+
+            def run_fn(cur_bb, sf, arg_rvs, res_ty):
+                """apply a closure (spliced) or a function item (called) at the end of cur_bb; returns (result local, continuation block)"""
                 res = new_local(b, res_ty)
                 after = new_block(b, [], None, loc)
-                pro, entry = splice(b, g, [env_rvalue(g, cl_op), arg_rv], P(res, ty=res_ty), after, loc)
-                b["blocks"][cur_bb]["stmts"] += pro
-                b["blocks"][cur_bb]["term"] = goto(entry)
-                used.add(g["path"])
+                if sf[0] == "closure":
+                    g, cl_op = sf[1], sf[2]
+                    pro, entry = splice(b, g, [env_rvalue(g, cl_op)] + arg_rvs, P(res, ty=res_ty), after, loc)
+                    b["blocks"][cur_bb]["stmts"] += pro
+                    b["blocks"][cur_bb]["term"] = goto(entry)
+                    used.add(g["path"])
+                else:
+                    ops = []
+                    for rv in arg_rvs:
+                        al = new_local(b, "?")
+                        b["blocks"][cur_bb]["stmts"].append(assign(P(al), rv, loc))
+                        ops.append(mv(al))
+                    b["blocks"][cur_bb]["term"] = call(copy.deepcopy(sf[1]), ops, P(res, ty=res_ty), after, loc)
                 return res, after
 
-            ok = True
-            for (stage, cl_op, g, _cb, _fn) in stages:
-                rty = g["locals"][0]["ty"]
-                if stage == "map":
-                    res, cur_bb = run_closure(cur_bb, g, cl_op, use(mv(e_l, ety)), rty)
-                    e_l, ety = res, rty
-                elif stage in ("filter", "inspect"):
-                    r_l = new_local(b, "&" + ety)
-                    b["blocks"][cur_bb]["stmts"].append(assign(P(r_l), {"k": "ref", "mut": False, "fake": False, "p": P(e_l, ty=ety)}, loc))
-                    res, cur_bb = run_closure(cur_bb, g, cl_op, use(mv(r_l)), rty)
-                    if stage == "filter":
+            def ref_of(cur_bb, l, ty):
+                r_l = new_local(b, "&" + ty)
+                b["blocks"][cur_bb]["stmts"].append(assign(P(r_l), {"k": "ref", "mut": False, "fake": False, "p": P(l, ty=ty)}, loc))
+                return r_l
+
+            failed = []
+
+            def none_stmt(st_):
+                if not b["blocks"][none]["stmts"]:
+                    b["blocks"][none]["stmts"].append(st_)
+
+            def emit(cur_bb, e_l, ety, skip):
+                ok = True
+                last_flat = None
+                for si_, (stage, sf, _cb, _fn) in enumerate(stages):
+                    rty = fn_ret_ty(sf) if sf is not None else ety
+                    if stage == "map":
+                        res, cur_bb = run_fn(cur_bb, sf, [use(mv(e_l, ety))], rty)
+                        e_l, ety = res, rty
+                    elif stage in ("filter", "inspect"):
+                        r_l = ref_of(cur_bb, e_l, ety)
+                        res, cur_bb = run_fn(cur_bb, sf, [use(mv(r_l))], rty)
+                        if stage == "filter":
+                            nxt = new_block(b, [], None, loc)
+                            b["blocks"][cur_bb]["term"] = {"k": "switch", "d": mv(res, "bool"), "dty": "bool", "ts": [[0, skip]], "else": nxt}
+                            cur_bb = nxt
+                    elif stage == "filter_map":
+                        res, cur_bb = run_fn(cur_bb, sf, [use(mv(e_l, ety))], rty)
+                        d2 = new_local(b, "isize")
                         nxt = new_block(b, [], None, loc)
-                        b["blocks"][cur_bb]["term"] = {"k": "switch", "d": mv(res, "bool"), "dty": "bool", "ts": [[0, head]], "else": nxt}
-                        cur_bb = nxt
-                elif stage == "filter_map":
-                    res, cur_bb = run_closure(cur_bb, g, cl_op, use(mv(e_l, ety)), rty)
+                        un2 = new_block(b, [], {"k": "unreachable"}, loc)
+                        b["blocks"][cur_bb]["stmts"].append(assign(P(d2), {"k": "discr", "p": P(res, ty=rty)}, loc))
+                        b["blocks"][cur_bb]["term"] = {"k": "switch", "d": mv(d2), "dty": "isize", "ts": [[0, skip], [1, nxt]], "else": un2}
+                        inner = rty[len("std::option::Option<"):-1] if rty.startswith("std::option::Option<") else "?"
+                        v = new_local(b, inner)
+                        b["blocks"][nxt]["stmts"].append(assign(P(v, ty=inner), use({"k": "move", "p": P(res, [{"dc": "Some"}, {"f": 0, "n": "0"}], inner)}), loc))
+                        e_l, ety, cur_bb = v, inner, nxt
+                    elif stage in ("flat_map", "flatten"):
+                        if stage == "flat_map":
+                            res, cur_bb = run_fn(cur_bb, sf, [use(mv(e_l, ety))], rty)
+                        else:
+                            res, rty = e_l, ety
+                        if si_ == len(stages) - 1 and sink == "extend" and coll and coll[0].startswith("std::vec::Vec<") and rty.startswith("std::vec::Vec<"):
+                            last_flat = (res, rty)
+                            break
+                        ity2 = ("std::vec::IntoIter<" + rty[len("std::vec::Vec<"):]) if rty.startswith("std::vec::Vec<") else \
+                            ("std::option::IntoIter<" + rty[len("std::option::Option<"):]) if rty.startswith("std::option::Option<") else rty
+                        it2 = new_local(b, ity2, "iter")
+                        b["blocks"][cur_bb]["stmts"].append(assign(P(it2, ty=ity2), use(mv(res, rty)), loc))
+                        head2, some2, opt2 = open_loop(it2, ity2, skip)
+                        b["blocks"][cur_bb]["term"] = goto(head2)
+                        ety = "?"
+                        e_l = new_local(b, ety)
+                        b["blocks"][some2]["stmts"].append(assign(P(e_l, ty=ety), use({"k": "move", "p": P(opt2, [{"dc": "Some"}, {"f": 0, "n": "0"}], ety)}), loc))
+                        cur_bb, skip = some2, head2
+                    else:
+                        ok = False
+                if not ok:
+                    failed.append(1)
+                    return
+
+                def add_to(cur_bb, acc_operand_rv, elem_l, elem_ty, then):
+                    """one push / insert of the element into the collection, then goto `then`"""
+                    ra = new_local(b, "&mut " + coll[0])
+                    ig = new_local(b, "()")
+                    b["blocks"][cur_bb]["stmts"].append(assign(P(ra), acc_operand_rv, loc))
+                    if coll[3] == 2:
+                        k_l, v_l = new_local(b, "?"), new_local(b, "?")
+                        b["blocks"][cur_bb]["stmts"].append(assign(P(k_l), use({"k": "move", "p": P(elem_l, [{"f": 0, "n": "0"}], "?")}), loc))
+                        b["blocks"][cur_bb]["stmts"].append(assign(P(v_l), use({"k": "move", "p": P(elem_l, [{"f": 1, "n": "1"}], "?")}), loc))
+                        argv = [mv(ra), mv(k_l), mv(v_l)]
+                    else:
+                        argv = [mv(ra), mv(elem_l, elem_ty)]
+                    b["blocks"][cur_bb]["term"] = call(fn_operand(coll[2], []), argv, P(ig), then, loc)
+
+                if sink == "collect":
+                    add_to(cur_bb, {"k": "ref", "mut": True, "fake": False, "p": P(acc_l, ty=coll[0])}, e_l, ety, skip)
+                    none_stmt(assign(copy.deepcopy(dest), use(mv(acc_l, coll[0])), loc))
+                    b["blocks"][none]["term"] = goto(cont)
+                elif sink == "extend":
+                    reborrow = {"k": "ref", "mut": True, "fake": False, "p": {"l": acc_ref["p"]["l"], "pr": list(acc_ref["p"]["pr"]) + ["deref"], "ty": coll[0]}}
+                    if last_flat is not None:
+                        res, rty = last_flat
+                        ra = new_local(b, "&mut " + coll[0])
+                        rr = new_local(b, "&mut " + rty)
+                        ig = new_local(b, "()")
+                        b["blocks"][cur_bb]["stmts"].append(assign(P(ra), reborrow, loc))
+                        b["blocks"][cur_bb]["stmts"].append(assign(P(rr), {"k": "ref", "mut": True, "fake": False, "p": P(res, ty=rty)}, loc))
+                        b["blocks"][cur_bb]["term"] = call(fn_operand("std::vec::Vec::<T, A>::append", []), [mv(ra), mv(rr)], P(ig), skip, loc)
+                    else:
+                        add_to(cur_bb, reborrow, e_l, ety, skip)
+                    b["blocks"][none]["term"] = goto(cont)
+                elif sink in ("any", "all"):
+                    res, cur_bb = run_fn(cur_bb, sink_f, [use(mv(e_l, ety))], "bool")
+                    hit = new_block(b, [assign(copy.deepcopy(dest), use(cbool(sink == "any")), loc)], goto(cont), loc)
+                    if sink == "any":
+                        b["blocks"][cur_bb]["term"] = {"k": "switch", "d": mv(res, "bool"), "dty": "bool", "ts": [[0, skip]], "else": hit}
+                    else:
+                        b["blocks"][cur_bb]["term"] = {"k": "switch", "d": mv(res, "bool"), "dty": "bool", "ts": [[0, hit]], "else": skip}
+                    none_stmt(assign(copy.deepcopy(dest), use(cbool(sink != "any")), loc))
+                    b["blocks"][none]["term"] = goto(cont)
+                elif sink == "find":
+                    r_l = ref_of(cur_bb, e_l, ety)
+                    res, cur_bb = run_fn(cur_bb, sink_f, [use(mv(r_l))], "bool")
+                    hit = new_block(b, [assign(copy.deepcopy(dest), adt_agg("std::option::Option", "Some", 1, [mv(e_l, ety)]), loc)], goto(cont), loc)
+                    b["blocks"][cur_bb]["term"] = {"k": "switch", "d": mv(res, "bool"), "dty": "bool", "ts": [[0, skip]], "else": hit}
+                    none_stmt(assign(copy.deepcopy(dest), adt_agg("std::option::Option", "None", 0, []), loc))
+                    b["blocks"][none]["term"] = goto(cont)
+                elif sink == "find_map":
+                    rty = fn_ret_ty(sink_f)
+                    res, cur_bb = run_fn(cur_bb, sink_f, [use(mv(e_l, ety))], rty)
                     d2 = new_local(b, "isize")
-                    nxt = new_block(b, [], None, loc)
                     un2 = new_block(b, [], {"k": "unreachable"}, loc)
+                    hit = new_block(b, [assign(copy.deepcopy(dest), use(mv(res, rty)), loc)], goto(cont), loc)
                     b["blocks"][cur_bb]["stmts"].append(assign(P(d2), {"k": "discr", "p": P(res, ty=rty)}, loc))
-                    b["blocks"][cur_bb]["term"] = {"k": "switch", "d": mv(d2), "dty": "isize", "ts": [[0, head], [1, nxt]], "else": un2}
-                    inner = rty[len("std::option::Option<"):-1] if rty.startswith("std::option::Option<") else "?"
-                    v = new_local(b, inner)
-                    b["blocks"][nxt]["stmts"].append(assign(P(v, ty=inner), use({"k": "move", "p": P(res, [{"dc": "Some"}, {"f": 0, "n": "0"}], inner)}), loc))
-                    e_l, ety, cur_bb = v, inner, nxt
-                else:
-                    ok = False
-            if not ok:
+                    b["blocks"][cur_bb]["term"] = {"k": "switch", "d": mv(d2), "dty": "isize", "ts": [[0, skip], [1, hit]], "else": un2}
+                    none_stmt(assign(copy.deepcopy(dest), adt_agg("std::option::Option", "None", 0, []), loc))
+                    b["blocks"][none]["term"] = goto(cont)
+                else:  # for_each
+                    res, cur_bb = run_fn(cur_bb, sink_f, [use(mv(e_l, ety))], "()")
+                    b["blocks"][cur_bb]["term"] = goto(skip)
+                    b["blocks"][none]["term"] = goto(cont)
+
+            for (st_bb, st_e, st_skip) in starts:
+                emit(st_bb, st_e, ety0, st_skip)
+            if failed:
                 continue
-            if sink == "collect":
-                ra = new_local(b, "&mut " + coll[0])
-                ig = new_local(b, "()")
-                b["blocks"][cur_bb]["stmts"].append(assign(P(ra), {"k": "ref", "mut": True, "fake": False, "p": P(acc_l, ty=coll[0])}, loc))
-                b["blocks"][cur_bb]["term"] = call(fn_operand(coll[2], []), [mv(ra), mv(e_l, ety)], P(ig), head, loc)
-                b["blocks"][none]["stmts"].append(assign(copy.deepcopy(dest), use(mv(acc_l, coll[0])), loc))
-                b["blocks"][none]["term"] = goto(cont)
-            elif sink in ("any", "all"):
-                res, cur_bb = run_closure(cur_bb, sink_closure, t["args"][1], use(mv(e_l, ety)), "bool")
-                hit = new_block(b, [assign(copy.deepcopy(dest), use(cbool(sink == "any")), loc)], goto(cont), loc)
-                if sink == "any":
-                    b["blocks"][cur_bb]["term"] = {"k": "switch", "d": mv(res, "bool"), "dty": "bool", "ts": [[0, head]], "else": hit}
-                else:
-                    b["blocks"][cur_bb]["term"] = {"k": "switch", "d": mv(res, "bool"), "dty": "bool", "ts": [[0, hit]], "else": head}
-                b["blocks"][none]["stmts"].append(assign(copy.deepcopy(dest), use(cbool(sink != "any")), loc))
-                b["blocks"][none]["term"] = goto(cont)
-            else:  # for_each
-                res, cur_bb = run_closure(cur_bb, sink_closure, t["args"][1], use(mv(e_l, ety)), "()")
-                b["blocks"][cur_bb]["term"] = goto(head)
-                b["blocks"][none]["term"] = goto(cont)
             # the stage calls become dead definitions: neutralise them so that they do not show up as call sites
-            for (stage, cl_op, g, cbk, _fn) in stages:
+            for (stage, sf, cbk, _fn) in stages:
                 st = b["blocks"][cbk]["term"]
-                if st["k"] == "call":
+                if st is not None and st["k"] == "call":
                     b["blocks"][cbk]["term"] = goto(st["t"])
-            log.append("%s: %s%s desugared" % (b["path"], "+".join(s[0] for s in stages) + ("+" if stages else ""), sink))
+            log.append("%s: %s%s desugared" % (b["path"], "+".join(s_[0] for s_ in stages) + ("+" if stages else ""), sink))
             changed = True
             break
     return used
@@ -382,6 +606,8 @@ def desugar_body(b, bodies, known_uses, log):
 # ------------------------------------------------------------------ Option combinators
 
 OPT = "std::option::Option::<T>::"
+RES = "std::result::Result::<T, E>::"
+RES_COMB = ("map", "map_or", "and_then", "is_ok_and", "unwrap_or", "unwrap_or_default")
 OPT_COMB = ("map", "map_or", "map_or_else", "and_then", "is_some_and", "is_none_or", "unwrap_or_else", "filter", "or_else", "unwrap_or", "unwrap_or_default")
 
 
@@ -400,9 +626,22 @@ def desugar_option_combinators(b, bodies, known_uses, log):
             if t["k"] != "call" or blk.get("cleanup") or t.get("t") is None:
                 continue
             fn = callee_of(t)
-            if fn is None or not fn["path"].startswith(OPT) or fn["path"][len(OPT):] not in OPT_COMB:
+            if fn is None:
                 continue
-            name = fn["path"][len(OPT):]
+            if fn["path"].startswith(OPT) and fn["path"][len(OPT):] in OPT_COMB:
+                name = fn["path"][len(OPT):]
+                YES, NO, ADT, YES_I, TYPRE = "Some", "None", "std::option::Option", 1, "std::option::Option<"
+            elif fn["path"].startswith(RES) and fn["path"][len(RES):] in RES_COMB:
+                name = {"is_ok_and": "is_some_and"}.get(fn["path"][len(RES):], fn["path"][len(RES):])
+                YES, NO, ADT, YES_I, TYPRE = "Ok", "Err", "std::result::Result", 0, "std::result::Result<"
+            else:
+                continue
+            is_res = ADT.endswith("Result")
+
+            def opt_agg(variant, ops):  # shadows the module-level helper: builds the right ADT for Option or Result
+                if variant == "Some":
+                    return adt_agg(ADT, YES, YES_I, ops)
+                return adt_agg(ADT, NO, 1 - YES_I, ops if not is_res else [{"k": "move", "p": P(src, [{"dc": "Err"}, {"f": 0, "n": "0"}], "")}])
             if known_uses is not None and (b["path"], fn["path"]) in known_uses:
                 continue
             args = t["args"]
@@ -411,22 +650,22 @@ def desugar_option_combinators(b, bodies, known_uses, log):
                 loc = blk["tloc"]
                 dest, cont = t["dest"], t["t"]
                 oty = args[0]["p"].get("ty") or ""
-                inner = oty[len("std::option::Option<"):-1] if oty.startswith("std::option::Option<") else "?"
-                src = new_local(b, oty or "std::option::Option<?>")
+                inner = (oty[len(TYPRE):-1].split(",")[0] if is_res else oty[len(TYPRE):-1]) if oty.startswith(TYPRE) else "?"
+                src = new_local(b, oty or (TYPRE + "?>"))
                 d_l = new_local(b, "isize")
                 blk["stmts"].append(assign(P(src, ty=oty), use(copy.deepcopy(args[0])), loc))
-                blk["stmts"].append(assign(P(d_l), {"k": "discr", "p": P(src, ty=oty or "std::option::Option<?>")}, loc))
-                some = new_block(b, [assign(copy.deepcopy(dest), use({"k": "move", "p": P(src, [{"dc": "Some"}, {"f": 0, "n": "0"}], inner)}), loc)], goto(cont), loc)
+                blk["stmts"].append(assign(P(d_l), {"k": "discr", "p": P(src, ty=oty or (TYPRE + "?>"))}, loc))
+                some = new_block(b, [assign(copy.deepcopy(dest), use({"k": "move", "p": P(src, [{"dc": YES}, {"f": 0, "n": "0"}], inner)}), loc)], goto(cont), loc)
                 if name == "unwrap_or":
                     none = new_block(b, [assign(copy.deepcopy(dest), use(copy.deepcopy(args[1])), loc)], goto(cont), loc)
                 else:
                     none = new_block(b, [], call(fn_operand("std::default::Default::default", [inner], trait="std::default::Default", self_ty=inner), [], copy.deepcopy(dest), cont, loc), loc)
                 unreach = new_block(b, [], {"k": "unreachable"}, loc)
-                blk["term"] = {"k": "switch", "d": mv(d_l), "dty": "isize", "ts": [[0, none], [1, some]], "else": unreach}
+                blk["term"] = {"k": "switch", "d": mv(d_l), "dty": "isize", "ts": [[1 - YES_I, none], [YES_I, some]], "else": unreach}
                 log.append("%s: Option::%s written as a match" % (b["path"], name))
                 did = True
                 break
-            cl_ops = [a for a in args[1:] if closure_of_operand(b, a, bodies) is not None]
+            cl_ops = [a for a in args[1:] if stage_fn(b, a, bodies) is not None and (closure_of_operand(b, a, bodies) is not None or a["k"] == "const" or "fn" in str(a.get("ty", "")) or "fn(" in (a.get("p") or {}).get("ty", "") or "{" in (a.get("p") or {}).get("ty", ""))]
             want = 2 if name == "map_or_else" else 1
             if len(cl_ops) != want or args[0]["k"] not in ("move", "copy"):
                 continue
@@ -434,27 +673,36 @@ def desugar_option_combinators(b, bodies, known_uses, log):
             dest, cont = t["dest"], t["t"]
             o = args[0]
             oty = o["p"].get("ty") or ""
-            inner = oty[len("std::option::Option<"):-1] if oty.startswith("std::option::Option<") else "?"
-            src = new_local(b, oty or "std::option::Option<?>")
+            inner = (oty[len(TYPRE):-1].split(",")[0] if is_res else oty[len(TYPRE):-1]) if oty.startswith(TYPRE) else "?"
+            src = new_local(b, oty or (TYPRE + "?>"))
             d_l = new_local(b, "isize")
             blk["stmts"].append(assign(P(src, ty=oty), use(copy.deepcopy(o)), loc))
-            blk["stmts"].append(assign(P(d_l), {"k": "discr", "p": P(src, ty=oty or "std::option::Option<?>")}, loc))
+            blk["stmts"].append(assign(P(d_l), {"k": "discr", "p": P(src, ty=oty or (TYPRE + "?>"))}, loc))
             some = new_block(b, [], None, loc)
             none = new_block(b, [], None, loc)
             unreach = new_block(b, [], {"k": "unreachable"}, loc)
-            blk["term"] = {"k": "switch", "d": mv(d_l), "dty": "isize", "ts": [[0, none], [1, some]], "else": unreach}
+            blk["term"] = {"k": "switch", "d": mv(d_l), "dty": "isize", "ts": [[1 - YES_I, none], [YES_I, some]], "else": unreach}
             x = new_local(b, inner)
-            b["blocks"][some]["stmts"].append(assign(P(x, ty=inner), use({"k": "move", "p": P(src, [{"dc": "Some"}, {"f": 0, "n": "0"}], inner)}), loc))
+            b["blocks"][some]["stmts"].append(assign(P(x, ty=inner), use({"k": "move", "p": P(src, [{"dc": YES}, {"f": 0, "n": "0"}], inner)}), loc))
 
             def run(cur_bb, cl_op, arg_rvs):
-                g = closure_of_operand(b, cl_op, bodies)
-                rty = g["locals"][0]["ty"]
+                sf = stage_fn(b, cl_op, bodies)
+                rty = fn_ret_ty(sf)
                 res = new_local(b, rty)
                 after = new_block(b, [], None, loc)
-                pro, entry = splice(b, g, [env_rvalue(g, cl_op)] + arg_rvs, P(res, ty=rty), after, loc)
-                b["blocks"][cur_bb]["stmts"] += pro
-                b["blocks"][cur_bb]["term"] = goto(entry)
-                used.add(g["path"])
+                if sf[0] == "closure":
+                    g = sf[1]
+                    pro, entry = splice(b, g, [env_rvalue(g, cl_op)] + arg_rvs, P(res, ty=rty), after, loc)
+                    b["blocks"][cur_bb]["stmts"] += pro
+                    b["blocks"][cur_bb]["term"] = goto(entry)
+                    used.add(g["path"])
+                else:
+                    ops = []
+                    for rv_ in arg_rvs:
+                        al = new_local(b, "?")
+                        b["blocks"][cur_bb]["stmts"].append(assign(P(al), rv_, loc))
+                        ops.append(mv(al))
+                    b["blocks"][cur_bb]["term"] = call(copy.deepcopy(sf[1]), ops, P(res, ty=rty), after, loc)
                 return res, rty, after
 
             dty = dest.get("ty") or b["locals"][dest["l"]]["ty"]
@@ -514,6 +762,141 @@ def desugar_option_combinators(b, bodies, known_uses, log):
             break
         if not did:
             break
+    return used
+
+
+# ------------------------------------------------------------------ the `?` operator and closure-free combinators
+
+
+def adt_agg(adt, variant, vi, ops):
+    return {"k": "agg", "ak": "adt", "adt": adt, "variant": variant, "vi": vi, "ops": ops}
+
+
+def desugar_try(b, log):
+    """`x?` is lowered to Try::branch + a match on ControlFlow + FromResidual::from_residual; for Option and Result these are rewritten into
+    the plain match they stand for. Likewise bool::then_some, Result::ok, Option::or / ok_or (no closure involved)."""
+    n = 0
+    for bi in range(len(b["blocks"])):
+        blk = b["blocks"][bi]
+        t = blk["term"]
+        if t is None or t["k"] != "call" or blk.get("cleanup") or t.get("t") is None:
+            continue
+        fn = callee_of(t)
+        if fn is None or not t["args"]:
+            continue
+        path = fn["path"]
+        loc = blk["tloc"]
+        dest, cont, args = t["dest"], t["t"], t["args"]
+        a0 = args[0]
+        a0ty = (a0.get("p") or {}).get("ty") or (b["locals"][a0["p"]["l"]]["ty"] if a0["k"] in ("move", "copy") and not a0["p"]["pr"] else "")
+        is_opt = a0ty.startswith("std::option::Option<")
+        is_res = a0ty.startswith("std::result::Result<")
+
+        def split_on(src_ty, zero_stmts, one_stmts):
+            """switch on the discriminant of arg 0: variant 0 / variant 1 blocks with the given statements, both continuing at cont"""
+            src = new_local(b, src_ty)
+            d_l = new_local(b, "isize")
+            blk["stmts"].append(assign(P(src, ty=src_ty), use(copy.deepcopy(a0)), loc))
+            blk["stmts"].append(assign(P(d_l), {"k": "discr", "p": P(src, ty=src_ty)}, loc))
+            z = new_block(b, zero_stmts(src), goto(cont), loc)
+            o = new_block(b, one_stmts(src), goto(cont), loc)
+            u = new_block(b, [], {"k": "unreachable"}, loc)
+            blk["term"] = {"k": "switch", "d": mv(d_l), "dty": "isize", "ts": [[0, z], [1, o]], "else": u}
+
+        def payload(src, variant, ty=""):
+            return {"k": "move", "p": P(src, [{"dc": variant}, {"f": 0, "n": "0"}], ty)}
+
+        if path == "std::ops::Try::branch" and (is_opt or is_res) and a0["k"] in ("move", "copy"):
+            CF = "std::ops::ControlFlow"
+            if is_opt:
+                # None = 0, Some = 1
+                split_on(a0ty,
+                         lambda src: [assign(copy.deepcopy(dest), adt_agg(CF, "Break", 1, [{"k": "const", "ty": "std::option::Option<std::convert::Infallible>", "disp": "None"}]), loc)],
+                         lambda src: [assign(copy.deepcopy(dest), adt_agg(CF, "Continue", 0, [payload(src, "Some")]), loc)])
+            else:
+                # Ok = 0, Err = 1
+                split_on(a0ty,
+                         lambda src: [assign(copy.deepcopy(dest), adt_agg(CF, "Continue", 0, [payload(src, "Ok")]), loc)],
+                         lambda src: [assign(copy.deepcopy(dest), adt_agg(CF, "Break", 1, [{"k": "move", "p": P(src, [], a0ty)}]), loc)])
+            n += 1
+        elif path == "std::ops::FromResidual::from_residual":
+            dty = dest.get("ty") or b["locals"][dest["l"]]["ty"]
+            if dty.startswith("std::option::Option<"):
+                blk["stmts"].append(assign(copy.deepcopy(dest), adt_agg("std::option::Option", "None", 0, []), loc))
+                blk["term"] = goto(cont)
+                n += 1
+            elif dty.startswith("std::result::Result<") and a0["k"] in ("move", "copy"):
+                # Err(e) of the residual, converted with From (identity for the same error type)
+                blk["stmts"].append(assign(copy.deepcopy(dest), adt_agg("std::result::Result", "Err", 1, [{"k": "move", "p": P(a0["p"]["l"], list(a0["p"]["pr"]) + [{"dc": "Err"}, {"f": 0, "n": "0"}], "")}]), loc))
+                blk["term"] = goto(cont)
+                n += 1
+        elif path == "std::result::Result::<T, E>::ok" and is_res:
+            split_on(a0ty,
+                     lambda src: [assign(copy.deepcopy(dest), adt_agg("std::option::Option", "Some", 1, [payload(src, "Ok")]), loc)],
+                     lambda src: [assign(copy.deepcopy(dest), adt_agg("std::option::Option", "None", 0, []), loc)])
+            n += 1
+        elif path == "std::option::Option::<T>::or" and is_opt and len(args) == 2:
+            split_on(a0ty,
+                     lambda src: [assign(copy.deepcopy(dest), use(copy.deepcopy(args[1])), loc)],
+                     lambda src: [assign(copy.deepcopy(dest), adt_agg("std::option::Option", "Some", 1, [payload(src, "Some")]), loc)])
+            n += 1
+        elif path == "std::option::Option::<T>::ok_or" and is_opt and len(args) == 2:
+            split_on(a0ty,
+                     lambda src: [assign(copy.deepcopy(dest), adt_agg("std::result::Result", "Err", 1, [copy.deepcopy(args[1])]), loc)],
+                     lambda src: [assign(copy.deepcopy(dest), adt_agg("std::result::Result", "Ok", 0, [payload(src, "Some")]), loc)])
+            n += 1
+        elif path in ("std::option::Option::<T>::is_some", "std::option::Option::<T>::is_none", "std::result::Result::<T, E>::is_ok",
+                      "std::result::Result::<T, E>::is_err") and a0["k"] in ("move", "copy") and len(args) == 1:
+            # a test of the variant: the same switch a `match` would use (so that a value built with a known variant on each path is seen through)
+            oty = a0ty[1:].lstrip() if a0ty.startswith("&") else a0ty
+            if oty.startswith(("std::option::Option<", "std::result::Result<")):
+                is_o = oty.startswith("std::option::Option<")
+                yes_i = 1 if is_o else 0  # Some = 1 ; Ok = 0
+                positive = path.endswith(("is_some", "is_ok"))
+                d_l = new_local(b, "isize")
+                pl = {"l": a0["p"]["l"], "pr": list(a0["p"]["pr"]) + (["deref"] if a0ty.startswith("&") else []), "ty": oty}
+                blk["stmts"].append(assign(P(d_l), {"k": "discr", "p": pl}, loc))
+                yes = new_block(b, [assign(copy.deepcopy(dest), use(cbool(positive)), loc)], goto(cont), loc)
+                no = new_block(b, [assign(copy.deepcopy(dest), use(cbool(not positive)), loc)], goto(cont), loc)
+                u = new_block(b, [], {"k": "unreachable"}, loc)
+                blk["term"] = {"k": "switch", "d": mv(d_l), "dty": "isize", "ts": [[yes_i, yes], [1 - yes_i, no]], "else": u}
+                n += 1
+        elif path in ("core::bool::<impl bool>::then_some", "std::bool::<impl bool>::then_some") and len(args) == 2:
+            yes = new_block(b, [assign(copy.deepcopy(dest), adt_agg("std::option::Option", "Some", 1, [copy.deepcopy(args[1])]), loc)], goto(cont), loc)
+            no = new_block(b, [assign(copy.deepcopy(dest), adt_agg("std::option::Option", "None", 0, []), loc)], goto(cont), loc)
+            blk["term"] = {"k": "switch", "d": copy.deepcopy(a0), "dty": "bool", "ts": [[0, no]], "else": yes}
+            n += 1
+    if n:
+        log.append("%s: %d `?` / then_some / ok / or step(s) written as the match they abbreviate" % (b["path"], n))
+
+
+def desugar_bool_then(b, bodies, log):
+    """`cond.then(|| value)`: Some(closure()) if cond else None"""
+    used = set()
+    for bi in range(len(b["blocks"])):
+        blk = b["blocks"][bi]
+        t = blk["term"]
+        if t is None or t["k"] != "call" or blk.get("cleanup") or t.get("t") is None:
+            continue
+        fn = callee_of(t)
+        if fn is None or fn["path"] not in ("core::bool::<impl bool>::then", "std::bool::<impl bool>::then") or len(t["args"]) != 2:
+            continue
+        g = closure_of_operand(b, t["args"][1], bodies)
+        if g is None:
+            continue
+        loc = blk["tloc"]
+        dest, cont = t["dest"], t["t"]
+        rty = g["locals"][0]["ty"]
+        res = new_local(b, rty)
+        after = new_block(b, [assign(copy.deepcopy(dest), adt_agg("std::option::Option", "Some", 1, [mv(res, rty)]), loc)], goto(cont), loc)
+        yes = new_block(b, [], None, loc)
+        pro, entry = splice(b, g, [env_rvalue(g, t["args"][1])], P(res, ty=rty), after, loc)
+        b["blocks"][yes]["stmts"] = pro
+        b["blocks"][yes]["term"] = goto(entry)
+        no = new_block(b, [assign(copy.deepcopy(dest), adt_agg("std::option::Option", "None", 0, []), loc)], goto(cont), loc)
+        blk["term"] = {"k": "switch", "d": copy.deepcopy(t["args"][0]), "dty": "bool", "ts": [[0, no]], "else": yes}
+        used.add(g["path"])
+        log.append("%s: bool::then with a closure written as an if" % b["path"])
     return used
 
 
@@ -723,6 +1106,26 @@ def resolve_named_consts(data, log):
         if len(st) == 1 and st[0]["k"] == "assign" and st[0]["p"]["l"] == 0 and not st[0]["p"]["pr"] and st[0]["rv"]["k"] == "use" \
                 and st[0]["rv"]["o"]["k"] == "const" and ("str" in st[0]["rv"]["o"] or "int" in st[0]["rv"]["o"]) and b["blocks"][0]["term"]["k"] == "return":
             lits[b["path"]] = st[0]["rv"]["o"]
+    # arrays of literals (`const NAMES: [&str; 4] = [..]`): a statement `x = NAME` becomes `x = [..]`
+    arrs = {}
+    for b in data["bodies"]:
+        if not str(b.get("kind", "")).startswith("Const") or len(b["blocks"]) != 1 or b["arg_count"] != 0:
+            continue
+        st = b["blocks"][0]["stmts"]
+        if len(st) == 1 and st[0]["k"] == "assign" and st[0]["p"]["l"] == 0 and not st[0]["p"]["pr"] and st[0]["rv"]["k"] == "agg" \
+                and st[0]["rv"].get("ak") == "array" and all(o["k"] == "const" for o in st[0]["rv"]["ops"]) and b["blocks"][0]["term"]["k"] == "return":
+            arrs[b["path"]] = st[0]["rv"]
+    na = 0
+    if arrs:
+        for b in data["bodies"]:
+            for blk in b["blocks"]:
+                for st in blk["stmts"]:
+                    if st["k"] == "assign" and st["rv"]["k"] == "use" and st["rv"]["o"]["k"] == "const" and st["rv"]["o"].get("disp") in arrs \
+                            and "str" not in st["rv"]["o"] and "int" not in st["rv"]["o"] and "fn" not in st["rv"]["o"]:
+                        st["rv"] = copy.deepcopy(arrs[st["rv"]["o"]["disp"]])
+                        na += 1
+        if na:
+            log.append("%d use(s) of named constant arrays replaced by the array literal" % na)
     if not lits:
         return
     n = [0]
@@ -767,16 +1170,42 @@ def thread_bool_jumps(b, log):
     constant are renamed in the copy (and must not be read elsewhere), so that what stays in the original chain is defined on the remaining paths
     only; if all are, nothing needs renaming because the original test is no longer reached."""
     n = 0
+    # empty forwarding blocks (`bbK: goto bbL`) are skipped: whoever jumps to bbK jumps to bbL
+    def final(tg, depth=0):
+        while depth < 50:
+            bk = b["blocks"][tg]
+            if bk["stmts"] or bk.get("cleanup") or bk["term"] is None or bk["term"]["k"] != "goto" or bk["term"]["t"] == tg:
+                return tg
+            tg = bk["term"]["t"]
+            depth += 1
+        return tg
+    for blk in b["blocks"]:
+        tm = blk["term"]
+        if tm is None or blk.get("cleanup"):
+            continue
+        if tm["k"] in ("goto", "drop", "assert") or (tm["k"] == "call" and tm.get("t") is not None):
+            tm["t"] = final(tm["t"])
+        elif tm["k"] == "switch":
+            tm["ts"] = [[v, final(x)] for (v, x) in tm["ts"]]
+            tm["else"] = final(tm["else"])
     for _round in range(80):
+        live = set()
+        st_ = [0]
+        while st_:
+            x_ = st_.pop()
+            if x_ in live or b["blocks"][x_]["term"] is None:
+                continue
+            live.add(x_)
+            st_.extend(succs(b["blocks"][x_]))
         preds = {}
         for i, blk in enumerate(b["blocks"]):
-            if blk.get("cleanup"):
+            if blk.get("cleanup") or i not in live:
                 continue
             for t in succs(blk):
                 preds.setdefault(t, []).append(i)
         uses = {}  # local -> blocks that READ it (whole-local assignment targets do not count)
         for i, blk in enumerate(b["blocks"]):
-            if blk.get("cleanup"):
+            if blk.get("cleanup") or i not in live:
                 continue
             acc = set()
             for st in blk["stmts"]:
@@ -805,15 +1234,94 @@ def thread_bool_jumps(b, log):
             while len(preds.get(cur, [])) == 1:
                 p = preds[cur][0]
                 pb = b["blocks"][p]
-                if pb["term"]["k"] != "goto" or not _simple_assigns(pb) or p in chain or len(chain) > 6:
+                if pb["term"]["k"] not in ("goto", "drop") or not _simple_assigns(pb) or p in chain or len(chain) > 8:
                     break
                 chain.insert(0, p)
                 cur = p
-            J = chain[0]
-            ps = preds.get(J, [])
-            if len(ps) < 2 or len(set(ps)) != len(ps):
+            # joins further up: a predecessor of the join that is itself a simple forwarding block with several predecessors
+            candidates = [list(chain)]
+            def fwd(p_):
+                bk_ = b["blocks"][p_]
+                return bk_["term"]["k"] in ("goto", "drop") and _simple_assigns(bk_) and not bk_.get("cleanup")
+
+            for _depth in range(3):
+                j0 = candidates[-1][0]
+                ext = []
+                for p in preds.get(j0, []):
+                    if not fwd(p) or p in candidates[-1]:
+                        continue
+                    path_ = [p]
+                    cur_ = p
+                    while len(preds.get(cur_, [])) == 1 and fwd(preds[cur_][0]) and preds[cur_][0] not in path_ and len(path_) < 6:
+                        cur_ = preds[cur_][0]
+                        path_.insert(0, cur_)
+                    if len(preds.get(cur_, [])) >= 2 and any(b["blocks"][x_]["stmts"] for x_ in path_):
+                        ext.append(path_)
+                if len(ext) != 1:
+                    break
+                candidates.append(ext[0] + candidates[-1])
+            chain = None
+            for cand in reversed(candidates):  # the join closest to the definitions first
+                ps_ = preds.get(cand[0], [])
+                if len(ps_) >= 2 and len(set(ps_)) == len(ps_) and all(b["blocks"][p]["term"]["k"] in ("goto", "drop") for p in ps_):
+                    chain = cand
+                    break
+            if chain is None and len(preds.get(candidates[0][0], [])) == 1:
+                # the only way in is a statement-free forwarding block that is itself a join
+                p1 = preds[candidates[0][0]][0]
+                if not b["blocks"][p1]["stmts"] and b["blocks"][p1]["term"]["k"] in ("goto", "drop") and len(preds.get(p1, [])) >= 2:
+                    chain = candidates[0]
+            if chain is None:
+                # no join: the tested value may still be a constant along the only way in (`x = None; .. match x`): fold the test
+                chain = candidates[0]
+                env_ = {}
+                okc = True
+                for c in chain:
+                    for st in b["blocks"][c]["stmts"]:
+                        l = st["p"]["l"]
+                        rv = st["rv"]
+                        if st["p"]["pr"]:
+                            env_.pop(l, None)
+                        elif rv["k"] == "use" and rv["o"]["k"] == "const" and rv["o"].get("ty") == "bool" and "int" in rv["o"]:
+                            env_[l] = ("int", rv["o"]["int"])
+                        elif rv["k"] == "use" and rv["o"]["k"] in ("move", "copy") and not rv["o"]["p"]["pr"] and rv["o"]["p"]["l"] in env_:
+                            env_[l] = env_[rv["o"]["p"]["l"]]
+                        elif rv["k"] == "agg" and rv.get("ak") == "adt" and rv.get("adt") in ("std::option::Option", "std::result::Result", "std::ops::ControlFlow"):
+                            env_[l] = ("variant", rv["vi"])
+                        elif rv["k"] == "ref" and not rv["p"]["pr"] and rv["p"]["l"] in env_:
+                            env_[l] = env_[rv["p"]["l"]]
+                        elif rv["k"] == "discr" and all(e == "deref" for e in rv["p"]["pr"]) and env_.get(rv["p"]["l"], ("", 0))[0] == "variant":
+                            env_[l] = ("int", env_[rv["p"]["l"]][1])
+                        else:
+                            env_.pop(l, None)
+                r_ = env_.get(d["p"]["l"])
+                if r_ is not None and r_[0] == "int" and len(chain) > 1:
+                    tgt = t["else"]
+                    for (v, bb) in t["ts"]:
+                        if v == r_[1]:
+                            tgt = bb
+                    S_["term"] = goto(tgt)
+                    n += 1
+                    did = True
+                    break
                 continue
-            if any(b["blocks"][p]["term"]["k"] != "goto" for p in ps):
+            J = chain[0]
+            ps = []
+            for p0 in preds.get(J, []):
+                # look through statement-free forwarding blocks (a scope-end drop between the definition and the join)
+                stack_ = [p0]
+                seen_ = set()
+                while stack_:
+                    q = stack_.pop()
+                    if q in seen_:
+                        continue
+                    seen_.add(q)
+                    bq = b["blocks"][q]
+                    if not bq["stmts"] and bq["term"]["k"] in ("goto", "drop") and q not in chain and len(seen_) < 8 and preds.get(q):
+                        stack_.extend(preds[q])
+                    else:
+                        ps.append(q)
+            if len(ps) < 2 or len(set(ps)) != len(ps) or any(b["blocks"][p]["term"]["k"] not in ("goto", "drop") for p in ps):
                 continue
             chain_assigned = set()
             for c in chain:
@@ -837,9 +1345,12 @@ def thread_bool_jumps(b, log):
                         elif rv["k"] == "use" and rv["o"]["k"] in ("move", "copy") and not rv["o"]["p"]["pr"] and rv["o"]["p"]["l"] in env:
                             k_, v, carriers = env[rv["o"]["p"]["l"]]
                             env[l] = (k_, v, carriers | {l})
-                        elif rv["k"] == "agg" and rv.get("ak") == "adt" and rv.get("adt") in ("std::option::Option", "std::result::Result"):
+                        elif rv["k"] == "agg" and rv.get("ak") == "adt" and rv.get("adt") in ("std::option::Option", "std::result::Result", "std::ops::ControlFlow"):
                             env[l] = ("variant", rv["vi"], {l})
-                        elif rv["k"] == "discr" and not rv["p"]["pr"] and rv["p"]["l"] in env and env[rv["p"]["l"]][0] == "variant":
+                        elif rv["k"] == "ref" and not rv["p"]["pr"] and rv["p"]["l"] in env:
+                            k_, v, carriers = env[rv["p"]["l"]]
+                            env[l] = (k_, v, carriers | {l})  # a reference to the value: reading through it reads the value
+                        elif rv["k"] == "discr" and all(e == "deref" for e in rv["p"]["pr"]) and rv["p"]["l"] in env and env[rv["p"]["l"]][0] == "variant":
                             k_, v, carriers = env[rv["p"]["l"]]
                             env[l] = ("int", v, carriers | {l})
                         else:
@@ -1062,31 +1573,31 @@ def preprocess(data, known=None, known_uses=None):
     except Exception as e:
         log.append("named constants: %s" % e)
     spliced_closures = set()
-    # closures first (innermost bodies first does not matter: a closure spliced into a helper is carried along when the helper is spliced)
-    for b in data["bodies"]:
-        if b.get("derived"):
-            continue
+    todo = [b for b in data["bodies"] if not b.get("derived")]
+
+    def guarded(what, fn_, *a):
         try:
-            rewrite_idioms(b, log)
-        except Exception as e:
-            log.append("%s: idiom rewriting failed: %s" % (b["path"], e))
-        try:
-            thread_bool_jumps(b, log)
-        except Exception as e:
-            log.append("%s: jump threading failed: %s" % (b["path"], e))
-        try:
-            if b["path"] not in KNOWN_ORPAT:
-                unmerge_or_patterns(b, log)
-        except Exception as e:
-            log.append("%s: or-pattern splitting failed: %s" % (b["path"], e))
-        try:
-            spliced_closures |= desugar_option_combinators(b, bodies, known_uses, log)
-        except Exception as e:
-            log.append("%s: Option combinator desugaring failed: %s" % (b["path"], e))
-        try:
-            spliced_closures |= desugar_body(b, bodies, known_uses, log)
+            return fn_(*a)
         except Exception as e:  # leave the body as it is: rules will fail closed on shapes they do not know
-            log.append("%s: adaptor desugaring failed: %s" % (b["path"], e))
+            log.append("%s: %s failed: %s" % (a[0].get("path", "?") if a and isinstance(a[0], dict) else "?", what, e))
+            return None
+
+    # phase 1: rewrites local to one body
+    for b in todo:
+        guarded("idiom rewriting", rewrite_idioms, b, log)
+        guarded("`?` desugaring", desugar_try, b, log)
+        guarded("jump threading", thread_bool_jumps, b, log)
+        if b["path"] not in KNOWN_ORPAT:
+            guarded("or-pattern splitting", unmerge_or_patterns, b, log)
+    # phase 2: closures are spliced into their users, innermost closures first so that what is spliced is already normalised
+    for b in sorted(todo, key=lambda b_: -b_["path"].count("{closure#")):
+        for what, fn_ in (("bool::then desugaring", lambda b_: desugar_bool_then(b_, bodies, log)),
+                          ("Option combinator desugaring", lambda b_: desugar_option_combinators(b_, bodies, known_uses, log)),
+                          ("adaptor desugaring", lambda b_: desugar_body(b_, bodies, known_uses, log))):
+            r = guarded(what, fn_, b)
+            if r:
+                spliced_closures |= r
+        guarded("jump threading", thread_bool_jumps, b, log)
     dropped = set()
     if known is not None:
         dropped = inline_unknown(data, bodies, known, log)
@@ -1147,6 +1658,12 @@ def write_known(facts, path=KNOWN_FILE):
             for _bi, t, fn in calls_of(b):
                 if fn["path"] == ITER + "collect":
                     plain.add(b["path"])
+    pext = set()
+    for c in facts.values():
+        for b in c["bodies"]:
+            for _bi, t, fn in calls_of(b):
+                if fn["path"] == "std::iter::Extend::extend":
+                    pext.add(b["path"])
     orp = set()
     for c in facts.values():
         for b in c["bodies"]:
@@ -1156,7 +1673,7 @@ def write_known(facts, path=KNOWN_FILE):
                 orp.add(b["path"])
     json.dump({"comment": "function inventory of the reference tree (rules are anchored on these names); closure-taking calls of the reference tree; "
                           "functions of the reference tree with variable-binding or-patterns",
-               "functions": sorted(fns), "closure_uses": sorted(list(u) for u in uses), "or_pattern_fns": sorted(orp), "plain_collects": sorted(plain),
+               "functions": sorted(fns), "closure_uses": sorted(list(u) for u in uses), "or_pattern_fns": sorted(orp), "plain_collects": sorted(plain), "plain_extends": sorted(pext),
                "dormant_comment": "helpers without a caller in the reference tree and not named by any rule: if a change starts calling one it is treated like a new helper",
                "dormant": DORMANT}, open(path, "w"), indent=1)
 
